@@ -11,8 +11,8 @@ CONSTANTS
   EnqAcct = FALSE
   HasDeadline = TRUE
   Prime = FALSE
-  MaxPub = 5
-  MaxRead = 3
+  MaxPub = 4
+  MaxRead = 2
   MaxStall = 2
   MaxSweep = 2
   MaxLeave = 0
